@@ -616,15 +616,19 @@ class BatchProxy(object):
 
     def __call__(self, oneway=False):
         self.__proxy._pyroClaimOwnership()
-        results = self.__proxy._pyroInvokeBatch(self.__calls, oneway)
-        self.__calls = []  # clear for re-use
+        try:
+            results = self.__proxy._pyroInvokeBatch(self.__calls, oneway)
+        finally:
+            self.__calls = []  # clear for re-use (also after a failed submit: its calls may have run already)
         if not oneway:
             return self.__resultsgenerator(results)
 
     def _pyroInvoke(self, name, args, kwargs):
         # ignore all parameters, we just need to execute the batch
-        results = self.__proxy._pyroInvokeBatch(self.__calls)
-        self.__calls = []  # clear for re-use
+        try:
+            results = self.__proxy._pyroInvokeBatch(self.__calls)
+        finally:
+            self.__calls = []  # clear for re-use (also after a failed submit: its calls may have run already)
         return self.__resultsgenerator(results)
 
 
